@@ -216,6 +216,38 @@ theorem fields_autoItems_nil (sig : Sig) : Tmpl.fields (autoItems [] sig) = sig.
     simp only [List.not_mem_nil, if_false, List.map_cons]
     cases hk : p.kind <;> simp [Tmpl.fields, ih, paramKey, hk]
 
+/-! ## rendering looks only at the fields of the template -/
+
+theorem renderWith_congr_fields (f g : Str → Str) (t : Tmpl) (h : ∀ n ∈ t.fields, f n = g n) :
+    renderWith f t = renderWith g t := by
+  induction t with
+  | nil => rfl
+  | cons it r ih =>
+    cases it with
+    | lit s =>
+      simp only [renderWith]
+      rw [ih (fun n hn => h n (by simpa [Tmpl.fields] using hn))]
+    | field m =>
+      simp only [renderWith]
+      rw [h m (by simp [Tmpl.fields]), ih (fun n hn => h n (by simp [Tmpl.fields, hn]))]
+
+theorem render_congr_fields (t : Tmpl) (V₁ V₂ : Dict) (h : ∀ n ∈ t.fields, get? V₁ n = get? V₂ n) :
+    render t V₁ = render t V₂ := by
+  have hf : fastPath t V₁ = fastPath t V₂ := by
+    simp only [fastPath]
+    rw [Bool.eq_iff_iff]
+    simp only [List.all_eq_true]
+    constructor
+    · intro H n hn
+      rw [← h n hn]; exact H n hn
+    · intro H n hn
+      rw [h n hn]; exact H n hn
+  unfold render
+  rw [hf]
+  apply renderWith_congr_fields
+  intro n hn
+  simp only [fieldText, h n hn]
+
 /-! ## per-type injectivity of the value rendering -/
 
 theorem intText_injective (i j : Int) (h : intText i = intText j) : i = j :=
